@@ -1222,3 +1222,11 @@ impl BreakpointRegistry {
         snap
     }
 }
+
+#[cfg(feature = "verif")]
+impl BreakpointRegistry {
+    /// verification hook: number of deferred breakpoint requests still waiting
+    pub fn verif_deferred_len(&self) -> usize {
+        self.deferred_breakpoints.len()
+    }
+}
